@@ -151,7 +151,3 @@ func (g *Gen) obligationsFor(name string) ([]*Obligation, []*Obligation, error) 
 	return v.obls, v.smokes, nil
 }
 
-func cmdCheck(args []string) int {
-	fmt.Println("not implemented yet")
-	return 2
-}
